@@ -98,9 +98,11 @@ Definition spec_goc (g : registry) (t : table) (fs : list factory) (p : bytes) :
       end
   end.
 
-(* CanonicalPath is not idempotent on blank-edged segments in front of ".."
-   ("/a /b/.." -> "/a " -> "/a"); GetOrCreate canonicalises for the registry
-   once and for the route twice.  Guard of the theorems (known finding). *)
+(* GetOrCreate canonicalises for the registry once and for the route twice
+   (Match canonicalises its argument again).  The two keys agree because
+   CanonicalPath is idempotent — it was not before /repo fix 1c2de2b
+   ("/a /b/.." -> "/a " -> "/a"); Proofs: req_stable_all, from
+   CanonProofs.canonical_path_idem. *)
 Definition req_stable (p : bytes) : bool :=
   bytes_eqb (canonical_path (canonical_path p)) (canonical_path p).
 
@@ -224,7 +226,6 @@ Fixpoint ok_phist (url_ok : bytes -> bool) (fs : list factory) (st : pstate)
 Definition pop_wf (url_ok : bytes -> bool) (o : pop) : bool :=
   match o with
   | PSave r => match r_url r with [] => negb (url_ok []) | _ => true end
-  | PReq p => req_stable p
   | _ => true
   end.
 
